@@ -36,6 +36,10 @@ type Arr []Obj
 type Ref struct{ Num, Gen int }
 type Raw string // pre-rendered object text
 
+// LenOfObjStm as the value of a top-level object stands for the /Length of the object stream with that object
+// number in the same revision (the writer fills in the number of bytes it is going to write for it).
+type LenOfObjStm struct{ Num int }
+
 // Dict is an ordered dictionary.
 type Dict []KV
 type KV struct {
@@ -157,16 +161,16 @@ type Member struct {
 }
 
 type Revision struct {
-	XRef      string // "table" or "stream"
-	Items     []Item
-	Free      []int  // object numbers freed by this revision
-	XRefNum   int    // object number of the xref stream (XRef == "stream")
-	W         [3]int // field widths of the xref stream
-	Split     bool   // /Index with one subsection per contiguous run (else one covering range when possible)
-	FlateXRef bool
+	XRef          string // "table" or "stream"
+	Items         []Item
+	Free          []int  // object numbers freed by this revision
+	XRefNum       int    // object number of the xref stream (XRef == "stream")
+	W             [3]int // field widths of the xref stream
+	Split         bool   // /Index with one subsection per contiguous run (else one covering range when possible)
+	FlateXRef     bool
 	XRefPredictor bool // with FlateXRef: rows are PNG-Up predicted (/DecodeParms << /Columns w0+w1+w2 /Predictor 12 >>)
-	Root      Ref
-	Info      *Ref
+	Root          Ref
+	Info          *Ref
 }
 
 // PayloadFault, when set, is handed the not yet encoded payload of every object-stream header
@@ -188,14 +192,16 @@ type File struct {
 	EOL     string // "lf", "crlf", "cr"
 	Version string // e.g. "1.7"
 	Revs    []Revision
+	// SizeOverride, when non-zero, is written as the trailer /Size instead of the true value (fault injection).
+	SizeOverride int64
 	// PrevFormat, when set, is the fmt verb /Prev offsets are written with, in every section.
 	PrevFormat string
 }
 
 // Layout records where things landed (for the self-audit and for tests).
 type Layout struct {
-	Offsets   []map[int]int64 // per revision: object number -> byte offset
-	XRefAt    []int64         // per revision: offset of the xref section
+	Offsets    []map[int]int64  // per revision: object number -> byte offset
+	XRefAt     []int64          // per revision: offset of the xref section
 	Compressed []map[int][2]int // per revision: num -> (objstm, index)
 }
 
@@ -233,9 +239,9 @@ func (f *File) Bytes() ([]byte, *Layout, error) {
 	faulted := false
 	// state across revisions
 	type ent struct {
-		typ  int // 0 free, 1 offset, 2 compressed
-		f1   int64
-		f2   int
+		typ int // 0 free, 1 offset, 2 compressed
+		f1  int64
+		f2  int
 	}
 	maxNum := 0
 	var prevXRef int64 = -1
@@ -271,6 +277,32 @@ func (f *File) Bytes() ([]byte, *Layout, error) {
 			out.WriteString("endobj" + nl)
 			if num > maxNum {
 				maxNum = num
+			}
+		}
+		// resolve LenOfObjStm placeholders: the encoded size of an object stream depends on its members only
+		for ii, it := range rev.Items {
+			ph, ok := it.Val.(LenOfObjStm)
+			if !ok {
+				continue
+			}
+			found := false
+			for _, st := range rev.Items {
+				if st.IsObjStm && st.Num == ph.Num {
+					var head, body bytes.Buffer
+					for _, m := range st.Members {
+						fmt.Fprintf(&head, "%d %d ", m.Num, body.Len())
+						body.WriteString(Render(m.Val) + "\n")
+					}
+					data := append(head.Bytes(), body.Bytes()...)
+					if st.FlateStm {
+						data = deflate(data)
+					}
+					rev.Items[ii].Val = Int(len(data))
+					found = true
+				}
+			}
+			if !found {
+				return nil, nil, fmt.Errorf("LenOfObjStm %d: no such object stream in the revision", ph.Num)
 			}
 		}
 		for _, it := range rev.Items {
@@ -354,7 +386,11 @@ func (f *File) Bytes() ([]byte, *Layout, error) {
 				runs = append(runs, [2]int{n, 1})
 			}
 		}
-		trailer = append(trailer, KV{"Size", Int(maxNum + 1)}, KV{"Root", rev.Root})
+		size := Int(maxNum + 1)
+		if f.SizeOverride != 0 {
+			size = Int(f.SizeOverride)
+		}
+		trailer = append(trailer, KV{"Size", size}, KV{"Root", rev.Root})
 		if rev.Info != nil {
 			trailer = append(trailer, KV{"Info", *rev.Info})
 		}
